@@ -36,7 +36,9 @@ class DocumentDownloadableMediaMessageProtocolEntity(DownloadableMediaMessagePro
 
     @file_length.setter
     def file_length(self, value):
+        # the document and its downloadable part both carry the length, and both end up in the same field on the wire
         self.media_specific_attributes.file_length = value
+        self.downloadablemedia_specific_attributes.file_length = value
 
     @property
     def title(self):
@@ -56,8 +58,8 @@ class DocumentDownloadableMediaMessageProtocolEntity(DownloadableMediaMessagePro
 
     @property
     def jpeg_thumbnail(self):
-        return self.media_specific_attributes.image_message.jpeg_thumbnail
+        return self.media_specific_attributes.jpeg_thumbnail
 
     @jpeg_thumbnail.setter
     def jpeg_thumbnail(self, value):
-        self.media_specific_attributes.image_message.jpeg_thumbnail = value
+        self.media_specific_attributes.jpeg_thumbnail = value
